@@ -39,6 +39,7 @@ class _Walker:
         self.file = None
         self.line = 0
         self.decls = []
+        self.enums = {}
 
     def _loc(self, d):
         if not isinstance(d, dict):
@@ -72,6 +73,15 @@ class _Walker:
                     self._loc(v.get('end'))
             elif k == 'inner':
                 kind = node.get('kind')
+                if kind == 'EnumDecl':
+                    nxt = 0
+                    for c in v:
+                        if isinstance(c, dict) and c.get('kind') == 'EnumConstantDecl':
+                            val = _enum_value(c)
+                            if val is None:
+                                val = nxt
+                            self.enums[c.get('name')] = val
+                            nxt = val + 1
                 if depth == 1 and kind in ('FunctionDecl', 'VarDecl'):
                     self.decls.append(self._decl(node, myfile, myline))
                 for c in v:
@@ -106,6 +116,20 @@ class _Walker:
         return d
 
 
+def _enum_value(c):
+    for x in c.get('inner', []) or []:
+        if isinstance(x, dict):
+            if 'value' in x:
+                try:
+                    return int(x['value'])
+                except (TypeError, ValueError):
+                    pass
+            v = _enum_value(x)
+            if v is not None:
+                return v
+    return None
+
+
 def _find(node, kind):
     out = []
     if isinstance(node, dict):
@@ -135,7 +159,17 @@ def ast_decls(src_text, flags, workdir, name):
     tu = json.loads(p.stdout)
     w = _Walker()
     w.walk(tu, 0)
+    _enum_cache[name] = w.enums
     return w.decls
+
+
+_enum_cache = {}
+
+
+def enum_constants(m):
+    """{enumerator name: value} for every enum in the public headers"""
+    header_decls(m)
+    return dict(_enum_cache.get('ast_headers', {}))
 
 
 _cache = {}
